@@ -54,6 +54,8 @@ class Pair:
         self.lost = 0          # frames dropped so far
         self.early_used = 0    # retry timers that fired while frames were still in flight
         self.blackhole = False
+        self.last_tx: dict = {}  # (side, message number) -> clock value of its latest (re)transmission
+        self._prev_tx: dict = {}
 
     def message(self, side: str, i: int):
         return msg.DatasetPurge(ds=DatasetId(side, str(i)))
@@ -83,7 +85,9 @@ class Pair:
             s = ev[1]
             peer = self.routes[s]
             self.S[s].send(peer, self.message(s, self.sent[s]))
+            self.last_tx[(s, self.S[s].idx - 1)] = self.clock[0]
             self.sent[s] += 1
+            self._spin_check(s)
         elif kind in ("deliver", "drop", "dup"):
             i = self.net.deliverable()[ev[1]]
             if kind == "deliver":
@@ -118,14 +122,19 @@ class Pair:
             return
         for m in got:
             if isinstance(m, msg.Ack):
-                self.S[s].ack(m.idx)
+                try:
+                    self.S[s].ack(m.idx)
+                except Exception as e:  # a repeated Ack (the answer to a retry or to a duplicated frame) is ordinary traffic
+                    self.viol.append(("ack_raised", f"{type(e).__name__} while handling an Ack", f"{s}: Ack({m.idx}) with inflight {sorted(self.S[s].inflight)}: {e!r}"))
             else:
                 if m in self.handed[s]:
                     self.viol.append(("handed_up_twice", "an application message was handed to the receiver twice", f"{m} at {s}"))
                 self.handed[s].append(m)
 
-    def tick(self, s: str) -> None:
-        self.clock[0] += (GRACE_MS + 1) * 1_000_000
+    def _retry(self, s: str) -> list:
+        """the real maybe_retry; returns the message numbers it re-sent (seen as a used-up retry) and records when"""
+        left = {i: r.remaining for i, r in self.S[s].inflight.items()}
+        self._prev_tx = dict(self.last_tx)
         try:
             self.S[s].maybe_retry()
         except ValueError as e:
@@ -137,6 +146,26 @@ class Pair:
                 self.viol.append(("gave_up_on_reachable_peer", "sender raised 'retried too many times' although fewer frames were lost than transmissions went unanswered",
                                   f"{s}: {e}; frames lost {self.lost}, early timers {self.early_used}, handed up at peer: {self.handed[self.routes.get(s, 'X')]}"))
             self.gave_up[s].add(str(e))
+        resent = [i for i, r in self.S[s].inflight.items() if r.remaining != left.get(i, r.remaining)]
+        for i in resent:
+            self.last_tx[(s, i)] = self.clock[0]
+        return resent
+
+    def tick(self, s: str) -> None:
+        self.clock[0] += (GRACE_MS + 1) * 1_000_000
+        self._retry(s)
+        self._spin_check(s)
+
+    def _spin_check(self, s: str) -> None:
+        """the sender's loop comes round again 1 ms after a (re)transmission: whatever was sent less than the resend
+        grace ago must not be sent again, nor may a retry be used up (a no-op on a correct sender)"""
+        if self.gave_up[s] or not self.S[s].inflight:
+            return
+        self.clock[0] += 1_000_000
+        early = [i for i in self._retry(s) if self.clock[0] - self._prev_tx.get((s, i), 0) <= GRACE_MS * 1_000_000]
+        if early:
+            self.viol.append(("retry_before_grace", "a message was re-sent (or a retry used up) before the resend grace had elapsed since its last transmission",
+                              f"{s}: messages {early} re-sent {[(self.clock[0] - self._prev_tx[(s, i)]) // 1_000_000 for i in early]} ms after their last transmission"))
 
     def canon(self):
         def sender(S):
